@@ -3,6 +3,7 @@ import Req.H1.Response
 import Req.H1.Conn
 import Req.H1.ErrClass
 import Req.H1.BufAlias
+import Req.H1.AliasMime
 /-! Driver lanes of C04 (also used by C03).
 
 `c04parse <H|G> <B> <hex stream>` → canonical rendering of `parseResponse`.
@@ -222,8 +223,29 @@ def laneAlias : List String → String
     | _, _ => "bad-op"
   | _ => "bad-op"
 
+/-- `c04amime <B> <segments>`: `readMIMEHeader`'s loop over the explicit-array reader
+(`BufAlias.amimeLoop`) on the given segments: `<map> err=<class|-> rest=<hex>`; `n/a` when the
+block starts with a blank (the initial-line check of `readMIMEHeader` is not part of the loop). -/
+def laneAMime : List String → String
+  | [b, segs] =>
+    match b.toNat?, decodeList segs with
+    | some B, some ss =>
+      if B < 16 then "bad-op" else
+      match ss.flatten with
+      | [] => "n/a"
+      | c :: _ =>
+        if isOWS c then "n/a" else
+        let src : List BufLine.Chunk := ss.map fun d => ⟨d, none⟩
+        let total := ss.flatten.length
+        match BufAlias.amimeLoop B (total + 1) [] (BufAlias.ARd.init B src) with
+        | .ok (m, a) => renderMap m ++ " err=- rest=" ++ encodeHex a.rd.bytes
+        | .error e => "err=" ++ renderClass e
+    | _, _ => "bad-op"
+  | _ => "bad-op"
+
 def lanes : List (String × (List String → String)) := [
   ("c04alias", laneAlias),
+  ("c04amime", laneAMime),
   ("c04parse", laneParse),
   ("c04chunk", laneChunk),
   ("c04mime", laneMime),
